@@ -24,6 +24,7 @@ func init() {
 			{"C18/fatal-guards", "six unsafe combinations: no path reaches the normal return while the combination holds", c18FatalGuards},
 			{"C18/raw-compare", "every consumer of the settings the refusals test compares them the same way (exact equality with a constant), so a spelling that is not refused is not treated as the refused value later", c18RawCompare},
 			{"C18/key-substitution", "five keys: at return, len >= 32 was established or a fresh GenerateRandomString(n>=32) was stored", c18KeySubstitution},
+			{"C18/key-defaults", "config.Load's defaults carry no value for any of the seven keys: a built-in key would pass the length test and be the same on every installation", func(c *Ctx) { keyDefaults(c, "C18/key-defaults", allKeyPaths) }},
 			{"C18/checked-settings", "the settings the refusals test are returned as they were tested: Load does not rewrite them", c18CheckedSettings},
 			{"C18/csprng", "GenerateRandomString / GenerateRandomBytes draw only from crypto/rand and return n symbols", c18CSPRNG},
 			{"C18/mechanism-words", "OpenIDEnabled / KerberosEnabled / BasicAuthEnabled / NtlmEnabled test membership of the documented words", c18Words},
@@ -404,6 +405,7 @@ func c18CSPRNGAs(c *Ctx, rule string) {
 			}
 		}
 	}
+	generatorErrorResult(c, rule)
 	c.Floor(rule, 4, "two generators: source and length")
 }
 
